@@ -30,6 +30,15 @@ def main():
     if st:
         print("refusing: /repo has uncommitted tracked changes:\n" + st)
         return 2
+    # evidence files are rewritten by every run: keep the clean-tree ones aside and put them back afterwards
+    import shutil
+    import tempfile
+
+    keep = tempfile.mkdtemp(prefix="evidence_keep_")
+    for p in props:
+        f = os.path.join(V, "evidence", p + ".json")
+        if os.path.exists(f):
+            shutil.copy2(f, keep)
     subprocess.run(["git", "-C", "/repo", "apply", os.path.join(d, "patch.diff")], check=True)
     res = {}
     try:
@@ -47,6 +56,9 @@ def main():
                 print("   (no violation) " + " | ".join(res[p]["tail"]))
     finally:
         subprocess.run(["git", "-C", "/repo", "checkout", "--", "."], check=True)
+        for f in os.listdir(keep):
+            shutil.copy2(os.path.join(keep, f), os.path.join(V, "evidence", f))
+        shutil.rmtree(keep, ignore_errors=True)
     print(json.dumps({k: (v["exit"], len(v["violations"])) for k, v in res.items()}))
     return 0
 
